@@ -5,7 +5,7 @@ import spfgen as G
 ID = 'C11'
 COQ_TARGETS = ['Props/Properties_C11.vo']
 PROPS_FILES = ['Props/Properties_C11.v']
-THEOREMS = ['C11_check_host', 'C11_check_host_c', 'C11_limit_is_rfc', 'C11_rfc_constants', 'C11_bad_token_clean', 'C11_exp_text_clean', 'C11_received_spf_clean', 'C11_rfc_agreement_refuted', 'C11_rfc_deviation_witnesses']
+THEOREMS = ['C11_check_host', 'C11_check_host_c', 'C11_limit_is_rfc', 'C11_rfc_constants', 'C11_bad_token_clean', 'C11_exp_text_clean', 'C11_received_spf_clean', 'C11_rfc_agreement_refuted', 'C11_rfc_deviation_witnesses', 'C11_rfc_agreement_partial', 'C11_strict_reference_is_rfc']
 ENGINES = [dict(name='spf', c_sources=['spf_h.c'], extract='Extract/Extract_spf.v', driver='spf_driver.ml',
                 glue=('glue.ml', 'glue_z.ml'), accepts=lambda c: c.startswith('c1 '))]
 RULE = ('cases = (sender domain, client address v4/v6, sender, HELO, reverse name, zone); zone = TXT/A/AAAA/MX/PTR answers or injected errors per name '
@@ -17,7 +17,7 @@ RULE = ('cases = (sender domain, client address v4/v6, sender, HELO, reverse nam
         '(replays of F-C11-1..9 and boundary cases). non-trivial = the implementation made at least two resolver calls; distinct by case text')
 TRUSTED_BASE = [
     'Coq 8.16.1 kernel (coqc; coqchk in thorough); vm_compute in the non-vacuity example and for the literal pieces of the Received-SPF header; no native_compute',
-    'axioms: none (Print Assumptions: Closed under the global context for all nine theorems)',
+    'axioms: none (Print Assumptions: Closed under the global context for all eleven theorems)',
     'translator tools/translators/spf.py: regexes over qsmtpd/spf.c and include/qsmtpd/antispam.h produce coq/Gen/GenSpf.v (result codes, DNS term limit and the six places it is tested, '
     'mechanism chain, MX/PTR/CIDR/prefix/length limits, both sanitiser expressions, result[] and the 26 literal pieces of spfreceived())',
     'hand-written models coq/Model/Spf.v (core), SpfBase.v (strtol/strtoul/inet_pton as in glibc, ip4/ip6_matchnet, domainvalid), SpfMacro.v (macro expansion, functional) '
@@ -34,7 +34,7 @@ ASSUMPTIONS = [
     'resolver answers are functions of the name (one zone per evaluation); ask_dnsmx() returns entries with at least one address',
     'Received-SPF: heloname, HELO, sender and client address text are printable ASCII (sess_ok); they come from the session, not from DNS, except the reverse name when no HELO differs from it',
     'macro expansion (spf_makro and below) is covered by correspondence only: the theorems hold for every expander, the memory safety of the real one was exercised under ASan, not proved',
-    'fixes/C11-*.diff are applied: the unfixed tree violates the term limit (F-C11-1), crashes on F-C11-3..8 inputs and lets an IPv6 client match IPv4 MX addresses (F-C11-9) (corpus/C11/spf.cases)',
+    'fixes/C11-*.diff are applied: the unfixed tree violates the term limit (F-C11-1), crashes on F-C11-3..8 inputs and lets an IPv6 client match IPv4 MX addresses (F-C11-9); fixes/C11-14-ptr-case-insensitive.diff (ptr names compared with strcasecmp, F-C11-14) is NOT yet committed in /repo: it is applied in the scratch repo, the model follows it (corpus/C11/spf.cases)',
     'agreement with RFC 7208: the reference Spec/SpfRfc.v is hand-written from the RFC for macro-free records in its strict grammar; outside that fragment (syntax errors, macros, trailing dots, local or permanent resolver errors) results are not compared; five classes of deviation are known findings',
 ]
 
@@ -131,7 +131,8 @@ def distribution(results):
             d[b] = d.get(b, 0) + 1
             if 'ENULL' not in w: d['spfexp_set'] = d.get('spfexp_set', 0) + 1
         if r['spec'] == 'pre': d['outside_precondition'] = d.get('outside_precondition', 0) + 1
-        if r['spec'] == 'okrfc': d['compared_with_rfc_reference_and_equal'] = d.get('compared_with_rfc_reference_and_equal', 0) + 1
+        if r['spec'] in ('okrfc', 'okrfcp'): d['compared_with_rfc_reference_and_equal'] = d.get('compared_with_rfc_reference_and_equal', 0) + 1
+        if r['spec'] == 'okrfcp': d['inside_the_class_of_C11_rfc_agreement_partial'] = d.get('inside_the_class_of_C11_rfc_agreement_partial', 0) + 1
         if r['spec'] == 'bad': d['known_deviation_from_rfc'] = d.get('known_deviation_from_rfc', 0) + 1
     return d
 
@@ -139,11 +140,11 @@ LEVEL_TEXT = ('Machine-checked Coq theorems over an executable model of check_ho
               '(all zones, cyclic include/redirect graphs, injected errors), every session and every macro expander: evaluation terminates; the result is one of the '
               'RFC 7208 results (or -1 only if a resolver call reported a local error); at most 10 DNS querying terms are evaluated and an 11th is refused with fail; '
               'spflookup(NULL) is unreachable; xmitstat.spfexp only ever holds bytes 32..127 (33..126 without ( ) \\ from record_bad_token) and the Received-SPF header '
-              'built from it is a well formed folded 7-bit header field. Agreement with the RFC 7208 algorithm is NOT proved: it is refuted in general (C11_rfc_agreement_refuted, five witnesses) and otherwise only tested against a reference evaluator; macro expansion is covered by correspondence only.')
+              'built from it is a well formed folded 7-bit header field. Agreement with the RFC 7208 algorithm: refuted in general (C11_rfc_agreement_refuted, five witnesses) and PROVED (C11_rfc_agreement_partial) for every zone, client and domain in the decidable class in_class = the strict RFC reference evaluator gives a result (macro-free strictly valid records, no local/permanent resolver errors, none of the known deviations on the evaluated path): there the model returns exactly the RFC result, fail where the RFC limit of 10 DNS terms is exceeded. Outside the class (syntax errors, macros) agreement is tested only; macro expansion is covered by correspondence only.')
 LEVEL_NOTE = ('Trusted: Coq kernel, translator regexes, extraction (ExtrOcamlBasic), harness with the resolver answered from the case, generator quality of the correspondence run. '
               'The theorem is about the fixed code; eight fixes are proposed (F-C11-1, 3..9). Partial with respect to the property text: "agrees with the RFC 7208 check_host()" is '
-              'tested, not proved: on zones inside the strict macro-free grammar the result of the C is compared with Spec/SpfRfc.v; deviations F-C11-2, -10, -11, -12, -13 are known findings.')
+              'proved for the model on the class in_class (C11_rfc_agreement_partial) and tested on the C against the same reference; outside the class (records with syntax errors, macros, permanent resolver errors) tested only; deviations F-C11-2, -10, -11, -12, -13 and case-sensitive ptr are excluded from the class.')
 TECHNIQUE = ('Coq: invariant (terms evaluated <= counter, <= limit, spfexp clean) carried through an open-recursion model (term loop structural on the record, recursion on fuel = limit + 2), '
              'byte-map lemmas for the two sanitisers, reflection over the translator-generated header pieces; model-vs-C differential run under ASan/UBSan with a zone-driven fake resolver; '
-             'boolean checker on C outputs (result set, clean bytes, lower bound on evaluated terms from the resolver calls, equality with an RFC 7208 reference evaluator on the strict macro-free fragment)')
+             'simulation proof between the model and an RFC 7208 reference evaluator over the record text (term by term, mechanism by mechanism, recursion by induction on the fuel with equal DNS term counters); boolean checker on C outputs (result set, clean bytes, lower bound on evaluated terms from the resolver calls, equality with an RFC 7208 reference evaluator on the strict macro-free fragment)')
 DESIGN_REF = 'DESIGN.md section 5, C11'
